@@ -53,7 +53,7 @@ func (*c25Engine) Property() string { return "C25" }
 func (*c25Engine) Generate(seed uint64, tier string) *Case {
 	r := NewRand(seed)
 	var p syncParams
-	switch k := r.Intn(20); {
+	switch k := r.Intn(22); {
 	case k < 6:
 		p.Family = "api-chan"
 		p.Cap = r.Intn(4)
@@ -89,6 +89,31 @@ func (*c25Engine) Generate(seed uint64, tier string) *Case {
 		p.Iters = r.Range(1, 3)
 		for i := 0; i < p.Threads; i++ {
 			p.Writers = append(p.Writers, r.Intn(2))
+		}
+	case k < 13 && k >= 11:
+		// lock / unlock sequences with misuse (stray and double unlocks) under contention
+		p.Family = "api-lockops"
+		p.Scenario = Pick(r, []string{"mutex", "rwmutex", "rwmutex"})
+		nc := r.Range(2, 4)
+		for c := 0; c < nc; c++ {
+			var ops []chanOp
+			n := r.Range(1, 3)
+			for i := 0; i < n; i++ {
+				write := p.Scenario == "mutex" || r.Chance(0.4)
+				lk, ul := "rlock", "runlock"
+				if write {
+					lk, ul = "lock", "unlock"
+				}
+				switch x := r.Intn(10); {
+				case x < 5: // balanced pair
+					ops = append(ops, chanOp{Kind: lk}, chanOp{Kind: "yield", Val: r.Intn(3)}, chanOp{Kind: ul})
+				case x < 7: // double unlock
+					ops = append(ops, chanOp{Kind: lk}, chanOp{Kind: ul}, chanOp{Kind: ul})
+				default: // stray unlock of something this client does not hold
+					ops = append(ops, chanOp{Kind: "yield", Val: r.Intn(4)}, chanOp{Kind: ul})
+				}
+			}
+			p.Clients = append(p.Clients, ops)
 		}
 	case k < 11:
 		p.Family = "api-wg"
@@ -177,6 +202,55 @@ var chanModel = porcupine.Model{
 		return false, state
 	},
 	Equal: func(a, b interface{}) bool { return a.(string) == b.(string) },
+}
+
+// model state of a (RW)Mutex: write-held flag and number of read holds
+type lockState struct {
+	W bool
+	R int
+}
+
+var lockModel = porcupine.Model{
+	Init: func() interface{} { return lockState{} },
+	Step: func(state, input, output interface{}) (bool, interface{}) {
+		st := state.(lockState)
+		in := input.(chIn)
+		out := output.(chOut)
+		switch in.Kind {
+		case "lock":
+			if st.W || st.R != 0 {
+				return false, state
+			}
+			return out.Res == "ok", lockState{W: true}
+		case "rlock":
+			if st.W {
+				return false, state
+			}
+			return out.Res == "ok", lockState{R: st.R + 1}
+		case "unlock":
+			if st.W {
+				return out.Res == "ok", lockState{R: st.R}
+			}
+			return out.Res == "unlocked", state
+		case "runlock":
+			if st.R > 0 {
+				return out.Res == "ok", lockState{W: st.W, R: st.R - 1}
+			}
+			return out.Res == "unlocked", state
+		}
+		return false, state
+	},
+	Equal: func(a, b interface{}) bool { return a.(lockState) == b.(lockState) },
+}
+
+func classifyLockErr(err value.Value) string {
+	if err.IsUndefined() {
+		return "ok"
+	}
+	if c := err.Class(); c == value.MutexUnlockedErrorClass || c == value.RWMutexUnlockedErrorClass {
+		return "unlocked"
+	}
+	return "other:" + err.Inspect()
 }
 
 func classifyChanErr(err value.Value) string {
@@ -275,6 +349,58 @@ func (e *c25Engine) runAPI(t *testing.T, c *Case, p *syncParams) *Verdict {
 				env.Yield()
 			}
 			cancel()
+			env.Wait(&wg)
+		case "api-lockops":
+			var mx *value.Mutex
+			var rw *value.RWMutex
+			if p.Scenario == "mutex" {
+				mx = value.NewMutex()
+			} else {
+				rw = value.NewRWMutex()
+			}
+			for ci, cops := range p.Clients {
+				wg.Add(1)
+				ci, cops := ci, cops
+				env.Go(func() {
+					defer wg.Done()
+					for _, op := range cops {
+						if op.Kind == "yield" {
+							for i := 0; i < op.Val; i++ {
+								env.Yield()
+							}
+							continue
+						}
+						seq++
+						call := seq
+						var out chOut
+						switch {
+						case op.Kind == "lock" && mx != nil:
+							mx.Lock()
+							out.Res = "ok"
+						case op.Kind == "unlock" && mx != nil:
+							out.Res = classifyLockErr(mx.Unlock())
+						case op.Kind == "lock":
+							rw.Lock()
+							out.Res = "ok"
+						case op.Kind == "unlock":
+							out.Res = classifyLockErr(rw.Unlock())
+						case op.Kind == "rlock":
+							rw.ReadLock()
+							out.Res = "ok"
+						case op.Kind == "runlock":
+							out.Res = classifyLockErr(rw.ReadUnlock())
+						}
+						seq++
+						ret := seq
+						if strings.HasPrefix(out.Res, "other:") {
+							fail("%s on a %s returned an unexpected error %s", op.Kind, p.Scenario, out.Res)
+						}
+						mu.Lock()
+						ops = append(ops, porcupine.Operation{ClientId: ci, Input: chIn{op.Kind, 0}, Call: call, Output: out, Return: ret})
+						mu.Unlock()
+					}
+				})
+			}
 			env.Wait(&wg)
 		case "api-mutex":
 			m := value.NewMutex()
@@ -401,6 +527,17 @@ func (e *c25Engine) runAPI(t *testing.T, c *Case, p *syncParams) *Verdict {
 	if violation != "" {
 		v.Verdict, v.Class, v.Sig, v.Detail = "violation", "contract", "contract/"+p.Family, violation
 		return v
+	}
+	if p.Family == "api-lockops" {
+		sort.SliceStable(ops, func(i, j int) bool { return ops[i].Call < ops[j].Call })
+		switch porcupine.CheckOperationsTimeout(lockModel, ops, 20*time.Second) {
+		case porcupine.Illegal:
+			v.Verdict, v.Class, v.Sig = "violation", "nonlinearizable", "nonlinearizable/"+p.Scenario
+			v.Detail = fmt.Sprintf("%s history is not linearizable w.r.t. a lock with a write flag and a reader count in which an unlock of a lock that is not held returns UnlockedError:\n%s", p.Scenario, describeOps(ops))
+		case porcupine.Unknown:
+			v.Verdict, v.Class = "inconclusive", "porcupine_timeout"
+		}
+		v.Sample = map[string]any{"lock": p.Scenario, "history": describeOps(ops), "switches": res.Switches}
 	}
 	if p.Family == "api-chan" {
 		sort.SliceStable(ops, func(i, j int) bool { return ops[i].Call < ops[j].Call })
@@ -806,7 +943,7 @@ func (e *c25Engine) Shrink(c *Case) []*Case {
 		cc.Params = b
 		out = append(out, &cc)
 	}
-	if p.Family == "api-chan" {
+	if p.Family == "api-chan" || p.Family == "api-lockops" {
 		if len(p.Clients) > 1 {
 			for i := range p.Clients {
 				q := p
